@@ -67,7 +67,7 @@ Qed.
 
 Section sched.
   (* s0: the kv part of the sequencer when Flush starts; D0: the dataplane then; D1: the upstream world *)
-  Context (s0 : kvst) (D0 D1 : world) (nr : bool).
+  Context (s0 : kvst) (D0 D1 : world) (nr : bool) (S0 : gmap N (gset N)).
   Hypothesis HK2a : ∀ c, c ∈ k_pd s0 → k_pu s0 !! c = None.
   Hypothesis HK2b : ∀ c, c ∈ k_pd s0 → is_Some (w_kv D0 !! c).
   Hypothesis HK3 : ∀ c, w_kv D1 !! c =
@@ -83,7 +83,7 @@ Section sched.
                    Forall (present D1) (v_refs v0).
 
   Definition kvInv (pre : list phase) (s : kvst) (d : world) : Prop :=
-    closed d ∧
+    closed d ∧ w_sets d = S0 ∧
     (∀ id, is_Some (w_sets D1 !! id) → is_Some (w_sets d !! id)) ∧
     (∀ c, k_pu s !! c = if inpre (PUpd c.1) pre then None else k_pu s0 !! c) ∧
     (∀ c, c ∈ k_pd s ↔ c ∈ k_pd s0 ∧ inpre (PDel c.1) pre = false) ∧
@@ -111,7 +111,7 @@ Section sched.
   Lemma kvInv_typed pre s d c v : kvInv pre s d → w_kv d !! c = Some v →
     c.1 ≠ KIPSet ∧ Forall (λ r : cell, dep_ok c.1 r.1 = true) (v_refs v).
   Proof.
-    intros (_ & _ & _ & _ & _ & HD) Hl. rewrite HD in Hl.
+    intros (_ & _ & _ & _ & _ & _ & HD) Hl. rewrite HD in Hl.
     destruct (k_pu s0 !! c) as [v1|] eqn:E.
     - destruct (inpre _ _).
       + injection Hl as <-. apply Hty1. by rewrite HK3, E.
@@ -119,11 +119,19 @@ Section sched.
     - destruct (decide _); [destruct (inpre _ _); [done|]|]; by apply Hty0.
   Qed.
 
+  Lemma kvInv_done pre s d c :
+    kvInv pre s d → inpre (PUpd c.1) pre = true → inpre (PDel c.1) pre = true →
+    w_kv d !! c = w_kv D1 !! c.
+  Proof.
+    intros (_ & _ & _ & _ & _ & _ & HD) HU HP. rewrite HD, HK3, HU, HP.
+    destruct (k_pu s0 !! c); [done|]. by destruct (decide _).
+  Qed.
+
   Lemma kv_phase_step o pre p s d s' ms :
     kvInv pre s d → req_ok pre p = true → run_kv_phase o p s = (s', ms) →
     stream_ok d ms ∧ kvInv (p :: pre) s' (apply_msgs d ms).
   Proof.
-    intros HI Hreq Hrun. pose proof HI as (Hcl & Hips & Hpu & Hpd & Hsent & HD).
+    intros HI Hreq Hrun. pose proof HI as (Hcl & HS0 & Hips & Hpu & Hpd & Hsent & HD).
     destruct p as [| | |K|K]; try done; simpl in Hrun; unfold req_ok in Hreq.
     - (* PUpd K *)
       apply andb_true_iff in Hreq as [HKne Hreq]. apply negb_true_iff, bool_decide_eq_false in HKne.
@@ -145,6 +153,7 @@ Section sched.
           rewrite HK3 in Hp1. destruct (k_pu s0 !! (rk, rid)); [eauto|].
           destruct (decide _); [by destruct Hp1|done]. }
       split; [done|]. split_and!; try done.
+      + by rewrite Hsets.
       + intros id. rewrite Hsets. auto.
       + intros c. rewrite Hpu', inpre_cons. destruct (decide (c.1 = K)) as [->|Hne].
         * by rewrite bool_decide_eq_true_2.
@@ -187,6 +196,7 @@ Section sched.
         rewrite Forall_forall in Hall. specialize (Hall _ Hr). apply present_kv in Hall; [|done].
         rewrite Hnone in Hall. by destruct Hall. }
       split; [done|]. split_and!; try done.
+      + by rewrite Hsets.
       + intros id. rewrite Hsets. auto.
       + intros c. rewrite Hpu', Hpu, inpre_cons. by rewrite bool_decide_eq_false_2.
       + intros c. rewrite Hpd', Hpd, inpre_cons. destruct (decide (c.1 = K)) as [HcK|HcK].
